@@ -260,8 +260,22 @@ func raceReports(out string) []Violation {
 			if i := strings.Index(s, "\nGoroutine "); i >= 0 {
 				s = s[:i]
 			}
+			top := true
 			for _, l := range strings.Split(s, "\n") {
 				l = strings.TrimSpace(l)
+				if l == "" || strings.HasPrefix(l, "/") || !strings.Contains(l, "(") {
+					continue // file:line rows
+				}
+				if top {
+					// the access itself: skip runtime helpers; if it is harness code the report is an artefact
+					if strings.HasPrefix(l, "runtime.") || strings.HasPrefix(l, "sync.") || strings.HasPrefix(l, "sync/atomic.") || strings.HasPrefix(l, "internal/") {
+						continue
+					}
+					if strings.HasPrefix(l, "verifsim.") || strings.Contains(l, "/verifhook.") {
+						return ""
+					}
+					top = false
+				}
 				if strings.HasPrefix(l, modPrefix) && !strings.Contains(l, "/verifhook.") {
 					l = strings.TrimPrefix(l, modPrefix)
 					if i := strings.LastIndex(l, "("); i > 0 {
